@@ -25,6 +25,7 @@ TNext == /\ l <= Len(Traces[tid].ev) /\ TStep(Traces[tid].ev[l])
                  /\ fresh' = FALSE       \* judged only right after the searcher state was read back
 \* C14 state predicates, reported as flags as well
 StateFlags == (IF ObsLevelsMatchPolicy THEN {} ELSE {"obs_levels"})
+              \cup (IF ObsLevelsMatchPolicy /\ ~ObsLevelsStrict THEN {"obs_levels_completion"} ELSE {})
               \cup (IF PendingOnlyLive THEN {} ELSE {"pending_not_running"})
               \cup (IF PendingNotObserved THEN {} ELSE {"pending_observed"})
 TSpec == TInit /\ [][TNext]_tvars
